@@ -148,6 +148,7 @@ def check_case(case):
 
     memo = {}
     fit_memo = {}
+    model_key = None
     objs = {}
     other_fits = 0
     model = None
@@ -197,6 +198,7 @@ def check_case(case):
                 else:
                     model = _fit(op[1], op[2], A)
                 objs[(op[1], op[2])] = model
+                model_key = (op[1], op[2])
                 touched_between |= seen_keys
                 st_ = models.node_state(model)
                 st_.pop("relevant")
@@ -240,6 +242,17 @@ def check_case(case):
                 st_before = models.node_state(model)
                 p_first = _predict(model, A)
                 p_again = _predict(model, A)
+                if model_key is not None and model_key[0] == "unsup":
+                    # labels propagated AFTER a prediction: the next prediction must be that of a model that never predicted before
+                    libcall(model.propagate_labels)
+                    p_prop = _predict(model, A)
+                    twin = _fit("unsup", model_key[1], A)
+                    libcall(twin.propagate_labels)
+                    p_twin = _predict(twin, A)
+                    require(p_prop == p_twin, "predict_after_propagate_labels", lambda: "predict -> propagate_labels -> predict gives %r, fit -> propagate_labels -> predict gives %r" % (p_prop, p_twin))
+                    model = twin  # keep going with an object whose state is known (labels propagated)
+                    st_before = models.node_state(model)
+                    p_first = p_again = p_twin
                 st_after = models.node_state(model)
                 for f in st_before:
                     if f != "relevant":
